@@ -274,6 +274,7 @@ impl Monitor for C07 {
     fn mandatory(&self) -> Vec<&'static str> {
         vec![
             "relay_ok_admin",
+            "execute_calls_sent_by_the_proxy_itself",
             "relay_ok_subkey",
             "relay_refused_subkey",
             "relay_refused_stranger",
@@ -354,6 +355,16 @@ impl Monitor for C07 {
             if !p.attach.is_empty() && matches!(op, Op::Execute { .. }) {
                 h.out.count("execute_calls_with_funds_attached");
             }
+            // now and then the call arrives from the proxy's own address (a relayed message addressed to itself):
+            // the proxy is a caller like any other and needs the same authority
+            let mut side = h.rng.clone();
+            side.below(1000);
+            let sender = if matches!(op, Op::Execute { .. }) && side.chance(1, 16) {
+                h.out.count("execute_calls_sent_by_the_proxy_itself");
+                p.w.contract.to_string()
+            } else {
+                sender
+            };
             if !self.step(h, &mut p, &mut pre, &sender, &op) {
                 return;
             }
